@@ -953,6 +953,37 @@ func propC15(r *Run, w *World) {
 		} else {
 			st := scT.Underlying().(*types.Struct)
 			constructOnly := map[string]bool{"expiration": true, "lookupFn": true}
+			// a constructor, or an unexported helper that only the constructors call, that is
+			// only ever called statically and that is handed no stringCache to write into (it
+			// builds the value it returns): the object is not shared yet there either
+			var isCtorFn func(f *ssa.Function, depth int) bool
+			isCtorFn = func(f *ssa.Function, depth int) bool {
+				if f.Name() == "NewUserCache" || f.Name() == "NewGroupCache" {
+					return f.Signature.Recv() == nil
+				}
+				if depth > 2 || f.Object() == nil || f.Object().Exported() || f.Signature.Recv() != nil {
+					return false
+				}
+				for i := 0; i < f.Signature.Params().Len(); i++ {
+					t := f.Signature.Params().At(i).Type()
+					if pt, isPtr := t.Underlying().(*types.Pointer); isPtr {
+						t = pt.Elem()
+					}
+					if types.Identical(t, scT) {
+						return false
+					}
+				}
+				cs := w.CallSites(f)
+				if len(cs) == 0 {
+					return false
+				}
+				for _, c := range cs {
+					if c.Kind != "static" || !isCtorFn(c.Caller, depth+1) {
+						return false
+					}
+				}
+				return true
+			}
 			for i := 0; i < st.NumFields(); i++ {
 				fv := st.Field(i)
 				if fieldName(fv) == "mutex" {
@@ -964,7 +995,7 @@ func propC15(r *Run, w *World) {
 					}
 					key := fmt.Sprintf("stringCache.%s %s in %s", fieldName(fv), a.Kind, fnName(a.Fn))
 					held := li.HeldFor(a.Instr, class, a.Kind)
-					isCtor := a.Fn.Name() == "NewUserCache" || a.Fn.Name() == "NewGroupCache"
+					isCtor := isCtorFn(a.Fn, 0)
 					switch {
 					case held:
 						r.OK(key, a.Instr.Pos(), "mutex held")
@@ -979,7 +1010,7 @@ func propC15(r *Run, w *World) {
 				}
 				if constructOnly[fieldName(fv)] {
 					for _, a := range Writes(w.FieldAccesses(fv)) {
-						isCtor := a.Fn.Name() == "NewUserCache" || a.Fn.Name() == "NewGroupCache"
+						isCtor := isCtorFn(a.Fn, 0)
 						r.Check(isCtor, "stringCache."+fieldName(fv)+" written in "+fnName(a.Fn), a.Instr.Pos(), "", "stringCache."+fieldName(fv)+" is written after construction")
 					}
 				}
